@@ -172,14 +172,28 @@ def split_authority(a):
 WELL_KNOWN_PORTS = {'http': '80', 'https': '443', 'ftp': '21', 'ws': '80', 'wss': '443'}
 
 
+_UNRESERVED = 'ABCDEFGHIJKLMNOPQRSTUVWXYZabcdefghijklmnopqrstuvwxyz0123456789-._~'
+
+
+def pct_norm(text):
+    """RFC 3986 6.2.2.1 / 6.2.2.2: a percent-encoded UNRESERVED character is the same as the character itself,
+    and the hex digits of an escape are case-insensitive (escapes of reserved characters are kept: they are not
+    equivalent to the bare character)"""
+    def repl(m):
+        ch = chr(int(m.group(1), 16))
+        return ch if ch in _UNRESERVED else '%' + m.group(1).upper()
+    return re.sub(r'%([0-9A-Fa-f]{2})', repl, text)
+
+
 def canon(text):
     """the identifications the property statement allows when comparing two URI texts:
        * an empty path under an authority is the same as '/'            (stated in the property)
        * scheme and host are case-insensitive (RFC 3986 6.2.2.1; 'normalized result'); an empty or
          well-known default port is the same as none (6.2.3)
        * a present-but-empty query / fragment is the same as an absent one (boltons' URL object
-         cannot represent the difference; DESIGN section 6 C07 'Limits')"""
-    s, a, p, q, f = rfc_parse(text)
+         cannot represent the difference; DESIGN section 6 C07 'Limits')
+       * percent-encoded unreserved characters / lower-case escape digits (RFC 3986 6.2.2.1-2, `pct_norm`)"""
+    s, a, p, q, f = rfc_parse(pct_norm(text))
     if s is not None:
         s = s.lower()
     if a is not None:
@@ -893,7 +907,7 @@ class C07(Property):
             if 'exc' in d:
                 return 'X' + d['exc']
             if d['host']:
-                return 'T' + d['text']
+                return 'T' + pct_norm(d['text'])     # (no component of the model's domain contains a '%')
             # without a host the text is not compared (how to_text() writes an empty authority is property
             # C06's business): the public components instead
             return 'C' + '|'.join([d['scheme'] or '', d['user'] or '', d['pw'] or '', str(d['port'] or 0), d['path'],
